@@ -1,5 +1,5 @@
 """C04 -- backends reject what they cannot emulate instead of returning wrong results."""
-from contracts import config
+from contracts import config, drives_c04
 
 ID = "C04"
 LEVEL = "proof"
@@ -9,11 +9,14 @@ REPLAY = "replay/c33.py"
 def build(reg):
     config.register(reg, "C04")
     config.register_pulser_data(reg, "C04")
+    drives_c04.register(reg, "C04")
     return dict(
         targets=["emu_sv.sv_backend:SVBackend._run_from_sequence_data",
                  f"{config.JUMP}:get_lindblad_operators[raises]",
                  f"{config.ADAPTER}:PulserData.__init__",
-                 f"{config.IMPL}:create_impl", f"{config.IMPL}:DMRGBackendImpl.__init__"],
+                 f"{config.IMPL}:create_impl", f"{config.IMPL}:DMRGBackendImpl.__init__"] + [
+                 f"{config.ADAPTER}:_extract_omega_delta_phi[bases={b}]"
+                 for b in ("ground-rydberg+digital", "ground-rydberg+XY", "digital", "")],
         not_decided=["that an accepted sequence is emulated with the right Hamiltonian (that is C05/C06 and the "
                      "drive/matrix wiring of C01/C02)",
                      "emu-sv: rejection of eff_noise operators of the wrong shape is checked only through the "
